@@ -42,6 +42,8 @@ pub fn justification(kind: &str) -> &'static str {
         "e4-dup-field" | "e4-dup-field-decl" => "rule 'duplicate ... record field'",
 "e4-misspell-field" | "e4-extra-field" | "e4-missing-field-access" => "rule 'unknown record field': the record type has no field of that name",
         "e5-nonexhaustive" => "rule 'non-exhaustive ... match': no unguarded arm covers the removed variant and there is no `_` arm",
+        "e5-other-variant" | "e5-dup-and-delete" | "e5-dup-guarded-and-delete" => "rule 'non-exhaustive ... match': exhaustiveness is judged by the SET of variants that have an unguarded arm; after the edit one variant has none and there is no unguarded `_` arm (a repeated or a guarded arm of another variant does not stand in for it)",
+        "u5-dup-arm" => "UNSPECIFIED: a second unguarded arm of a variant that is already covered can never be taken, but the match stays exhaustive and the implementation documents this case as a warning, not an error; tallied, not judged",
         "e5-unreachable" => "rule 'unreachable match arm': the arm follows an unguarded `_` arm",
         "e5-misspell-variant" => "rule 'unknown name' / variant does not exist in the matched enum",
         "e5-add-binding" | "e5-drop-binding" => "rule 'wrong argument count' applied to patterns: the pattern binds a different number of fields than the variant declares",
@@ -912,12 +914,98 @@ impl<'a> Gen<'a> {
                 let variants = self.an.match_variants.get(&e.id).cloned();
                 let has_default = arms.iter().any(|a| a.variant.is_none() && a.guard.is_none());
                 let unguarded = |v: &str, skip: usize| arms.iter().enumerate().any(|(j, a)| j != skip && a.guard.is_none() && a.variant.as_ref().is_some_and(|x| x.name == v));
+                // (variant or `_`, guarded) of every arm; a match is exhaustive iff it has an
+                // unguarded `_` arm or the SET of variants with an unguarded arm is the whole enum
+                type Desc = Vec<(Option<String>, bool)>;
+                let desc: Desc = arms.iter().map(|a| (a.variant.as_ref().map(|v| v.name.clone()), a.guard.is_some())).collect();
+                let missing = |d: &Desc| -> Option<String> {
+                    let vs = variants.as_ref()?;
+                    if d.iter().any(|(v, g)| v.is_none() && !g) {
+                        return None;
+                    }
+                    vs.iter().find(|(v, _)| !d.iter().any(|(x, g)| !g && x.as_deref() == Some(v.as_str()))).map(|(v, _)| v.clone())
+                };
+                let _ = (has_default, &unguarded);
+                if missing(&desc).is_none() && variants.is_some() {
+                    let arm_copy = |g: &Gen, j: usize, guard: bool| -> String {
+                        let a = &arms[j];
+                        let mut t = g.text(a.sp).trim_end().to_string();
+                        if guard {
+                            t.insert_str(a.pat_sp.e - a.sp.s, " if true");
+                        }
+                        while t.ends_with(',') {
+                            t.pop();
+                        }
+                        t.push(',');
+                        t
+                    };
+                    for i in 0..arms.len() {
+                        let Some(vi) = &arms[i].variant else { continue };
+                        // e5: the pattern names every OTHER variant of the enum (binders adapted to its arity)
+                        for (w, arity) in variants.as_ref().unwrap() {
+                            if *w == vi.name {
+                                continue;
+                            }
+                            let mut d = desc.clone();
+                            d[i].0 = Some(w.clone());
+                            let Some(miss) = missing(&d) else { continue };
+                            let old: Vec<String> = arms[i].binds.as_ref().map(|(b, _)| b.iter().map(|s| s.name.clone()).collect()).unwrap_or_default();
+                            let binders: Vec<String> = (0..*arity).map(|k| old.get(k).cloned().unwrap_or(format!("zw{k}"))).collect();
+                            let pat = if binders.is_empty() { w.clone() } else { format!("{w}({})", binders.join(", ")) };
+                            self.push(
+                                "e5-other-variant",
+                                format!("pattern `{}` -> `{pat}`: no unguarded arm covers `{miss}`", self.text(arms[i].pat_sp)),
+                                vec![(arms[i].pat_sp.s, arms[i].pat_sp.e, pat)],
+                            );
+                        }
+                        // e5: arm j duplicated in the place of arm i (one duplicated, one deleted)
+                        for j in 0..arms.len() {
+                            if j == i || arms[j].variant.is_none() {
+                                continue;
+                            }
+                            let mut d = desc.clone();
+                            d[i] = desc[j].clone();
+                            if let Some(miss) = missing(&d) {
+                                self.push(
+                                    "e5-dup-and-delete",
+                                    format!("arm {j} (`{}`) repeated in the place of arm {i} (`{}`): no unguarded arm covers `{miss}`", self.text(arms[j].pat_sp), self.text(arms[i].pat_sp)),
+                                    vec![(arms[i].sp.s, arms[i].sp.e, arm_copy(self, j, false))],
+                                );
+                            }
+                            if !desc[j].1 {
+                                // the copy guarded; then both copies guarded
+                                d[i].1 = true;
+                                if let Some(miss) = missing(&d) {
+                                    self.push(
+                                        "e5-dup-guarded-and-delete",
+                                        format!("a guarded copy of arm {j} (`{}`) in the place of arm {i} (`{}`): no unguarded arm covers `{miss}`", self.text(arms[j].pat_sp), self.text(arms[i].pat_sp)),
+                                        vec![(arms[i].sp.s, arms[i].sp.e, arm_copy(self, j, true))],
+                                    );
+                                }
+                                d[j].1 = true;
+                                if let Some(miss) = missing(&d) {
+                                    self.push(
+                                        "e5-dup-guarded-and-delete",
+                                        format!("arm {j} (`{}`) guarded and a guarded copy of it in the place of arm {i} (`{}`): no unguarded arm covers `{miss}`", self.text(arms[j].pat_sp), self.text(arms[i].pat_sp)),
+                                        vec![(arms[i].sp.s, arms[i].sp.e, arm_copy(self, j, true)), (arms[j].pat_sp.e, arms[j].pat_sp.e, " if true".into())],
+                                    );
+                                }
+                            }
+                        }
+                        // unspecified: a second unguarded arm of a covered variant, nothing deleted
+                        if !desc[i].1 {
+                            let own = self.text(arms[i].sp).trim_end();
+                            let sep = if own.ends_with(',') || own.ends_with('}') { " " } else { ", " };
+                            self.push("u5-dup-arm", format!("arm {i} (`{}`) written twice", self.text(arms[i].pat_sp)), vec![(arms[i].sp.e, arms[i].sp.e, format!("{sep}{}", arm_copy(self, i, false)))]);
+                        }
+                    }
+                }
                 for (i, a) in arms.iter().enumerate() {
                     // e5: remove the arm
-                    let breaks = match (&a.variant, &a.guard) {
-                        (Some(v), None) => !has_default && !unguarded(&v.name, i),
-                        (None, None) => variants.as_ref().is_some_and(|vs| vs.iter().any(|(v, _)| !unguarded(v, usize::MAX))),
-                        _ => false,
+                    let breaks = {
+                        let mut d = desc.clone();
+                        d.remove(i);
+                        missing(&desc).is_none() && missing(&d).is_some()
                     };
                     if breaks {
                         let what = a.variant.as_ref().map(|v| v.name.clone()).unwrap_or("_".into());
